@@ -573,6 +573,8 @@ pub fn one_case(ctx: &Ctx, i: usize, id: String, malformed: bool) -> Case {
     let nops = rng.range(3, 14);
     // backing oracle state: resource -> regions it is attached to; tainted = a device error excused a release
     let mut attached: BTreeMap<u32, Vec<usize>> = BTreeMap::new();
+    // sequencing oracle state: resources the device has acknowledged creating (and not since unreferencing)
+    let mut created: std::collections::BTreeSet<u32> = std::collections::BTreeSet::new();
     let mut fb_fill: Option<(u8, usize)> = None;
     let mut cursor_img: Option<Vec<u8>> = None;
     let mut log_mark = st.borrow().log.len();
@@ -692,6 +694,29 @@ pub fn one_case(ctx: &Ctx, i: usize, id: String, malformed: bool) -> Case {
         c.tag(format!("gpu:result={}", res_s.split(' ').take(2).collect::<Vec<_>>().join(" ").split('=').next().unwrap_or("")));
 
         // ---- oracles ----
+        // sequencing, whatever the device answered earlier: tear-down commands (detach backing, unreference)
+        // are only sent for a resource whose creation the device acknowledged and which it has not
+        // acknowledged unreferencing since; backing is only attached to such a resource
+        for r in reqs.iter().filter(|r| r.q == 0 && r.bytes.len() >= 28) {
+            let rid = le32(&r.bytes, 24);
+            let okd = r.rsp_type == ok_for(r.cmd);
+            match r.cmd {
+                RESOURCE_CREATE_2D => {
+                    if okd {
+                        created.insert(rid);
+                    }
+                }
+                RESOURCE_DETACH_BACKING | RESOURCE_UNREF | RESOURCE_ATTACH_BACKING => {
+                    if !created.contains(&rid) {
+                        c.fail(format!("{}: command {:#x} sent for resource {:#x}, whose creation the device never acknowledged (or which it has since unreferenced)", name, r.cmd, rid));
+                    }
+                    if r.cmd == RESOURCE_UNREF && okd {
+                        created.remove(&rid);
+                    }
+                }
+                _ => {}
+            }
+        }
         let bad: Vec<&ReqRec> = reqs.iter().filter(|r| r.q == 0 && r.rsp_type != ok_for(r.cmd)).collect();
         case_err |= !bad.is_empty() || fail_alloc;
         if let Some(b) = bad.first() {
